@@ -12,91 +12,182 @@ Definition show_fres (r : fres) : string :=
   end.
 Definition check (rs : list rune) : string := digest (show_fres (format_res rs)).
 Definition full (rs : list rune) : string := show_fres (format_res rs).
-Eval vm_compute in ("<<<M314>>>" ++ check (runes_of_ascii "// c
-packet
+Eval vm_compute in ("<<<M1691>>>" ++ check (runes_of_ascii "  packet
+
+rootA {
+	char[
+	0
+	]len @calculatedFrom(	// `tick` ""quote"" 'q'
+	  ""abc""
+    )
+
+    ,u8 
+    // trailing space 
+
 uint8x
-{ @tag(
-65535
-    ) x_y_z ,
-char[]  a1@calculatedFrom(
-""`tick`"")
-, @tag(1 )
-    @tag(
-    1 )
-    @tag(4294967296 )
-    repeat string rootA `tab	here` , repeat i32 tag , } packet pack { @calculatedFrom( ""// no comment"")@lengthOf(
-uint8x )string zchar @calculatedFrom(""`tick`"" ) ,
-    }
-root packet tag {// trailing space 
-@tag( 42/// triple
-) @lengthOf(As)  @leftPad
-    ( '0' )
-match u128
-as float { [00]:
-charz ,},
-} packet chars {
-    @leftPad ( '\x00') char[	10	] len
-@calculatedFrom( ""a	b"" )
-    ,@tag( 00 )@tag(
-    10)uint64 matchKey ,x_y_z
-{ repeat // packet A { u8 x, }
-string rootA	`doc` , tag // packet A { u8 x, }
-, repeat char
-//x
-//	t
-MetaDataX , int64
-    asx
-    // 50% %s
-    ,
-    } ,// trailing space 
-i16
-stringy  ,match x_y_z as BodyLength //x
-{
-    [""\" ++ [233]%N ++ runes_of_ascii """ ,
-""" ++ [28040; 24687]%N ++ runes_of_ascii """
-, 7, 0
-, 7, 4294967296 ]: A , // " ++ [128512]%N ++ runes_of_ascii " emoji
-}
-, @calculatedFrom(""\n""
-)
-@leftPad
-    //
-    ( )f64 msg_type
-, repeat Logon`say ""hi""`  , @tag( 007 ) match
-    crc as
-    msg_type	{ [""a\\""
-,0123456789 , ""`tick`""
-, """ ++ [233]%N ++ runes_of_ascii "t" ++ [233]%N ++ runes_of_ascii """  ,
-//
+	@lengthOf(	roots ) 	 // 50% %s
+
+`a\`
+    ,  int@calculatedFrom(	""a\""b""
+), 
+match	msg_type  as
+
+i8i8
+
+{ ""\" ++ [233]%N ++ runes_of_ascii """
+    : 
+
 // trailing space 
-""{,}"" , // a // b
-255,	0123456789
+      // a // b
+	Header
+	,	1/// triple
+  :zchar ,
+
+    [
+""\n""] :	string_ ""\n""
+: i8i8 0123456789 // c
+	:Logon
+
+[00,
+007 ,
+
+    ""1""
+,	""it's""//
+    ,  ""// no comment"" ,
+0
+
+,""a\\""
+, 007	// " ++ [27880; 37322]%N ++ runes_of_ascii "
+]  /// triple
+  :BodyLength }
+,match
+
+rootA
+    // @lengthOf(
+  // " ++ [27880; 37322]%N ++ runes_of_ascii "
+    as
+
+chars{ 
+7: Header }
+, A Foo // `tick` ""quote"" 'q'
+      `tab	here`	,
+float64
+
+    charz @calculatedFrom( ""\" ++ [233]%N ++ runes_of_ascii """
+)
+	,	f32
+
+tag
+	, @lengthOf(
+x
+
+    )// `tick` ""quote"" 'q'
+@leftPad
+(
+    '\x00') 
+crc  {repeat	i16 options1
+
+    `tab	here`,match
+    options1  as	charz { ""CRC32""  :
+    u,
+0 // " ++ [27880; 37322]%N ++ runes_of_ascii "
+  :	//
+  charz ""x y"":
+roots ,
+[
+""CRC32"" ,  """ ++ [233]%N ++ runes_of_ascii "t" ++ [233]%N ++ runes_of_ascii """ ]	:	i8i8
+, },  repeat 	 // " ++ [27880; 37322]%N ++ runes_of_ascii "
+	  falsey
+
+    { 
+match
+chars 
+as asx  {
+	""abc""
+
+:  stringy  , 
+}  , match
+	lengthOf
+	as
+
+charz
+	{
+
+0123456789  :
+// c
+	  //
+    o  // " ++ [27880; 37322]%N ++ runes_of_ascii "
+  ,""// no comment""	: chars  ,
+
+    [ 
+// @lengthOf(
+  	""""
+,	7
+, 255
+
+    ,	00 ,42
+
+    ]:  float
+    ,	} 
+, match
+    a1 as
+lengthOf	{
+
+    [ 	 /// triple
+	65535,
+	1 ] 
+:int
+    ""{,}""
+	:
+
+    calculatedFrom
+	, ""`tick`""
+:
+
+    float  // @lengthOf(
+""// no comment""	:
+	Packet
+    [ 	 // c
+""\" ++ [233]%N ++ runes_of_ascii """ 
+, ""// no comment"" ,
+
+    3
+
+    , 
+""" ++ [128512]%N ++ runes_of_ascii """ 
+	    // packet A { u8 x, }
+	, 255
+	]:int ,
+
+//	t
+// trailing space 
+  } , 
+},	} ,}
+    options
+{msg_type
+= true
+lengthOf=
+zchar[
+	//
+
+1 // @lengthOf(
+  ]	;
+
+    } 
+root 
     //
-    ]: // packet A { u8 x, }
-Header 0123456789 : len // c
-,65535
-:BodyLength,
-""CRC32""
-:string_// " ++ [128512]%N ++ runes_of_ascii " emoji
-,
-4294967296 : len
-    , """ ++ [28040; 24687]%N ++ runes_of_ascii """  : trueish},repeat string
-    u ,	lengthOf Z9_ `{ , }`,} // 50% %s
-packet
-    trueish
-{  f32 Logon @calculatedFrom(
-    ""1"" ) , i64 matchKey
-    @calculatedFrom( ""x y""// a // b
-) //x
-`" ++ [28040; 24687; 31867; 22411]%N ++ runes_of_ascii "` , i8i8 `it's`
-    , msg_type
-, uint8 lengthOf ,int trueish, char[ 0123456789
-]
-uint8x , i8 int @lengthOf( msg_type ) `say ""hi""` ,@rightPad	( )  repeat f64
-    Z9_ , metadata{
-    falsey @calculatedFrom(  ""abc"" ) ,	} //
-, }")).
-Eval vm_compute in ("<<<M378>>>" ++ check (runes_of_ascii "options {
+
+  packet  packetx
+{ i8	// 50% %s
+tag  `line1
+line2`
+
+    ,
+	// @lengthOf(
+}
+
+")).
+Eval vm_compute in ("<<<M379>>>" ++ check (runes_of_ascii "options {
 	StringPrefixLenType = u16;
 	ArrayPrefixLenType = u16;
 }
@@ -160,895 +251,806 @@ packet Detail {
     string RuleName `" ++ [35268; 21017; 21517; 31216]%N ++ runes_of_ascii "`,
     u16 Code `" ++ [21407; 22240; 20195; 30721]%N ++ runes_of_ascii "`,
 }")).
-Eval vm_compute in ("<<<M1366>>>" ++ check (runes_of_ascii "options {
+Eval vm_compute in ("<<<M1550>>>" ++ check (runes_of_ascii "  options
+
+    {
+
+    Foo =
+true;
+len=
+'\x00'asx=
+
+    '0'
+	;  asx
+
+    =  // packet A { u8 x, }
+  3 
+; 
+
+    // " ++ [128512]%N ++ runes_of_ascii " emoji
+      //
+
+} 	 //	t
+  packet
+u128
+
+    { uint8
+
+crc `doc`	,
+Z9_
+, 
+repeat
+    i8
+roots , @lengthOf(  crc
+	) repeat As
+    `two words` , zchar[  007 ] 
+//x
+
+tag `// not a comment`, }
+
+    packet
+
+    pack	// c
+
+{
+string msg_type ,@calculatedFrom( """")
+
+repeat
+string
+tag `u8 x,`
+	, int16
+leftPad  ,
+
+@tag(  1 
+    // " ++ [27880; 37322]%N ++ runes_of_ascii "
+	)
+crc
+    , }
+	    /// triple
+
+	// a // b
+	root
+packet  packetx {@rightPad
+(
+'0' )
+	float64
+
+o
+// a // b
+
+  `two words` ,
+	repeat	//	t
+    string_
+
+crc
+
+    ,
+
+i64 As `line1
+line2`
+
+,
+
+    @lengthOf( rootA 	 //
+)
+u32
+Logon
+
+@lengthOf(
+
+a1 ), 
+@calculatedFrom(""""
+
+    )  @leftPad 
+    //x
+// @lengthOf(
+	(' '	)uint16	i8i8 
+@calculatedFrom(
+""// no comment"" )
+	,
+	repeat char[]	a1  ,
+    u128	{ 
+
+    // packet A { u8 x, }
+
+  // trailing space 
+    falsey
+    @lengthOf( pack) ,
+int16
+    packetx  ,i64_ 
+@calculatedFrom( ""\" ++ [233]%N ++ runes_of_ascii """
+)
+
+`{ , }` 
+  // " ++ [27880; 37322]%N ++ runes_of_ascii "
+,int64
+i8i8
+
+    `a\`  ,
+}
+
+,
+    } ")).
+Eval vm_compute in ("<<<M1352>>>" ++ check (runes_of_ascii "options {
     LittleEndian = true;
-    StringPrefixLenType = u16;
+    StringPrefixLenType = u8;
     ArrayPrefixLenType = u8;
-    FixedStringPadChar = ' ';
-}
-packet Ack {
-    @leftPad(' ') char[5] lastPx,
-    zchar[4] count,
-    repeat InVenue30 {
-        char[9] Side2,
-        char[12] venue,
-    },
-}
-packet Order {
-    int16 Note,
-    repeat InAcct28 {
-        InSym3 {
-            Ack,
-            char[4] lastPx,
-            char[1] venue,
-            f32 Ref,
-        },
-        repeat InTag729 {
-            char[3] Side2,
-            uint64 Acct,
-            char[] price,
-            zchar[9] Note,
-            zchar[9] venue,
-        },
-        char[] count,
-        Ack,
-        char[] Px,
-    },
-    u8 f1,
-    Ack,
-}
-packet Fill {
-    zchar[7] x,
-    Order,
-    @leftPad(' ') char[9] venue,
-    string count,
-    char[] Flags,
-}
-packet Logon {
-}
-packet Reject {
-    Order,
-    char[] sym,
-}
-root packet Quote {
-    string price,
-    i64 Flags,
-    repeat Fill,
-    zchar[9] x,
-    f32 lastPx,
-    repeat Ack,
-}
-")).
-Eval vm_compute in ("<<<M1359>>>" ++ check (runes_of_ascii "options {
-    LittleEndian = false;
-    StringPrefixLenType = u16;
-    ArrayPrefixLenType = u8;
+    FixedStringPadFromLeft = true;
     FixedStringPadChar = '0';
 }
-packet Leg {
-    zchar[1] Ref,
-    repeat string count,
-    repeat InMsgkind21 {
-        repeat char[2] price,
-        uint64 sym,
-        zchar[9] msgKind,
-    },
-    zchar[5] Note,
-}
-packet Ack {
-    u16 seqNo,
-    repeat char[1] Acct,
-    @leftPad(' ') char[4] msgKind,
-    repeat InTag747 {
-        Leg,
-    },
-    repeat string Tail,
-    Leg,
-}
-packet Trade {
-    u64 clOrdID,
-    repeat InLastpx24 {
-        char[10] Note,
-        char[3] Qty,
-        repeat char[2] Side2,
-        Ack,
-        repeat InX47 {
-            Ack,
+packet Logon {
+    repeat i8 Ref,
+    @rightPad('0') char[8] msgKind,
+    repeat InOrderid72 {
+        u8 Side2,
+        uint32 Qty,
+        repeat InPrice27 {
+            repeat char[4] Acct,
+            u64 sym,
+        },
+        zchar[4] clOrdID,
+        int16 lastPx,
+        InAcct22 {
+            repeat char[3] OrderId,
         },
     },
+    int64 Px,
 }
-root packet Heartbeat {
-    repeat u64 Acct,
-    string lastPx,
-    u8 Side2,
-    match Side2 as Body {
-        2 : Trade,
-        157 : Ack,
-        46 : Leg,
+packet Fill {
+    uint16 Qty,
+    repeat char[1] Flags,
+    i8 Ref,
+}
+packet Logout {
+    @leftPad('0') char[3] x,
+    int8 f1,
+    Logon,
+    uint16 venue,
+    zchar[2] Px,
+}
+packet Reject {
+}
+root packet Leg {
+    Fill,
+    u16 msgKind,
+    match msgKind as Body {
+        [182, 83] : Fill,
+        199 : Reject,
+        137 : Logout,
+        35 : Logon,
     },
-    u32 sym @calculatedFrom(""CR\
-C32""),
+    u32 lastPx @calculatedFrom(""CRC32""),
 }
 ")).
-Eval vm_compute in ("<<<M44>>>" ++ check (runes_of_ascii "MetaData BodyLength {} packet x_y_z
-{
-@lengthOf(  roots )
-    A { // " ++ [128512]%N ++ runes_of_ascii " emoji
-repeat
-    zchar[0123456789  ]
-    Z9_`a\`, },
-}
-    options // packet A { u8 x, }
-{ Pad =
-    ""x y"" ; // trailing space 
-trueish
-=
-true body =
-3 ; matchKey=
-true //x
-; i64_ =
-    char[] ; }packet Packet  {char[]
-// " ++ [128512]%N ++ runes_of_ascii " emoji
-// `tick` ""quote"" 'q'
-float@calculatedFrom( ""`tick`"" ) ,char[] charz @calculatedFrom( ""abc"" ) ,match As as
-    // packet A { u8 x, }
-    asx // @lengthOf(
-{ [ """ ++ [28040; 24687]%N ++ runes_of_ascii """, ""`tick`""
-, ""{,}"" ,
-""{,}"" , ""a	b""
-    // " ++ [27880; 37322]%N ++ runes_of_ascii "
-    , 1
-, ""\" ++ [233]%N ++ runes_of_ascii """	] :	rootA
-,
-    255:	asx 42
-    : a1 , 42 : x_y_z  """" :
-    msg_type
-,7 : f32a ,	}
-,  @leftPad
-( '0'
-) repeatCount crc `// not a comment`
-    ,
-@lengthOf(MetaDataX) float64 falsey@calculatedFrom( ""\" ++ [233]%N ++ runes_of_ascii """ ) `" ++ [233]%N ++ runes_of_ascii "` , }
-
-")).
-Eval vm_compute in ("<<<M270>>>" ++ check (runes_of_ascii "packet crc
-    {// a // b
-@tag( 4294967296
-) @leftPad ('\x00'  ) repeat zchar[
-4294967296 // " ++ [128512]%N ++ runes_of_ascii " emoji
-]Packet
-, @leftPad ( '0')@tag( 3 ) @tag(
-    7  )  repeat  matchKey { u32
-u
-,} , @lengthOf(chars ) /// triple
-@calculatedFrom( ""a	b""
-// 50% %s
-// @lengthOf(
-)
-@tag( 0123456789 )zchar[255] Pad
-,
-repeat uint64 u128
-// a // b
-// trailing space 
-`two words` , @calculatedFrom( ""abc"" ) i8 packetx , string	lengthOf
-, // " ++ [27880; 37322]%N ++ runes_of_ascii "
-} root packet stringy
-{@leftPad (
-    '0' ) matchKey //x
-roots ,
-// @lengthOf(
-// trailing space 
-@tag( 7) int8// c
-A
-@lengthOf(repeatCount )
-    `{ , }` ,
-    repeat u {// " ++ [27880; 37322]%N ++ runes_of_ascii "
-int16 Foo `it's` , string u, }, } // @lengthOf(")).
-Eval vm_compute in ("<<<M1736>>>" ++ check (runes_of_ascii "
-
-  packet
-
-    crc {
-
-@calculatedFrom( 
-""x y""
-
-)
-
-char[]
-u8x, }
-root
-    packet
-asx//
-  {
-
-float32	u8x
-
-`doc` 
-    // 50% %s
-	// trailing space 
-	,
-	}packet
-    lengthOf {repeat BodyLength
-{	match uint8x
-    as
-matchKey
-
-{ 
-""\n"": body ,  00 :  f32a	,
-
-    """ ++ [233]%N ++ runes_of_ascii "t" ++ [233]%N ++ runes_of_ascii """
-
-: 
-rootA ,
-
-    ""it's"" :
-crc,} ,
-}
-	, @tag(  42
-	) 
-    //
-  // " ++ [27880; 37322]%N ++ runes_of_ascii "
-
-roots Z9_ ,repeat
-leftPad{u128
-{
-
-len
-
-lengthOf  /// triple
-	,
-options1
-    A  // " ++ [27880; 37322]%N ++ runes_of_ascii "
-
-,
-
+Eval vm_compute in ("<<<M1907>>>" ++ check (runes_of_ascii "// a // b
+root packet uint8x {
+    repeat x {
+        tag @calculatedFrom(""// no comment"") `it's`,
+    },
+    //x
+    A @calculatedFrom(""abc""),
+    uint64 zchar,
+    //	t
+    //	t
+    zchar[7] msg_type,
+    @calculatedFrom(""" ++ [28040; 24687]%N ++ runes_of_ascii """)
+    crc,
     // `tick` ""quote"" 'q'
-/// triple
-    u128	Header
-, 
+    f32a Pad,
+    Header,// trailing space 
+    zchar[42] x @calculatedFrom(""\n"") `" ++ [28040; 24687; 31867; 22411]%N ++ runes_of_ascii "`,
+    string len,
 }
-	,	}
-    ,	@leftPad	(' '
 
-) 	 /// triple
-  repeat	int32 u8x  , }// @lengthOf(
-")).
-Eval vm_compute in ("<<<M1157>>>" ++ check (runes_of_ascii "// top
-MetaData
-    // c0
-msg_type
-    // c1
-{
-    // c2
-int32
-    // c3
-As
-    // c4
-`crlf
-line`
+packet falsey {
+    // " ++ [27880; 37322]%N ++ runes_of_ascii "
+    i64_ @calculatedFrom(""{,}""),
+    repeat string chars,
+    // `tick` ""quote"" 'q'
+    zchar[7] calculatedFrom,
+    Header {
+        char u `crlf
+        line`,
+        repeat char[] tag `a\`,
+        Z9_ @lengthOf(T) `say ""hi""`,
+    },
+    /// triple
+    // " ++ [27880; 37322]%N ++ runes_of_ascii "
+    msg_type @calculatedFrom(""// no comment""),
+    @rightPad('\x00')
+    @lengthOf(asx)
+    falsey,
+}// a // b")).
+Eval vm_compute in ("<<<M75>>>" ++ check (runes_of_ascii "  options { _x =  '0'
+// a // b
+// packet A { u8 x, }
+; Logon =
+false	}packet
+    A {} packet //
+Logon
+{ @leftPad (
+' ' ) repeat	repeatCount { stringy  @lengthOf(
+// " ++ [27880; 37322]%N ++ runes_of_ascii "
+// trailing space 
+len // @lengthOf(
+)`say ""hi""`
+, repeat metadata
+    `u8 x,` , match x as
+    int { [ ""`tick`"",7
+] // trailing space 
+: BodyLength ,255 : packetx
+42 // " ++ [128512]%N ++ runes_of_ascii " emoji
+:
+_x ,} ,
+    } , @rightPad ('0' ) @leftPad
+    (	' ' )
+@tag(65535 ) Header
+    `{ , }`	,int16 // trailing space 
+stringy
+    @lengthOf( // " ++ [128512]%N ++ runes_of_ascii " emoji
+calculatedFrom  ),
+repeat MetaDataX {x_y_z ,	repeat //
+calculatedFrom o`doc`
+,string_ repeatCount , rootA {repeatCount
+@calculatedFrom(
+""\" ++ [233]%N ++ runes_of_ascii """) `tab	here`	,
+}
+    , },
+    }")).
+Eval vm_compute in ("<<<M1656>>>" ++ check (runes_of_ascii "options {
+    stringy = zchar[0123456789]
+}
+
+MetaData charz {
+    zchar[42] calculatedFrom,
+    // `tick` ""quote"" 'q'
+    char[65535] trueish,
+    float64 roots `doc`,
+}
+
+packet calculatedFrom {
+    @calculatedFrom(""" ++ [128512]%N ++ runes_of_ascii """)
+    string crc `crlf
+    line`,
+    MetaDataX {
+        Packet @lengthOf(packetx) `{ , }`,// trailing space 
+        repeat trueish As,
+    },
+    int64 T,// `tick` ""quote"" 'q'
+    match uint8x as i64_ {
+        00 : _x,
+        65535 : Z9_,
+        ""1"" : u8x,
+        007 : Z9_,
+        /// triple
+        255 : matchKey,
+        ""1"" : crc,
+    },// " ++ [128512]%N ++ runes_of_ascii " emoji
+}// @lengthOf(")).
+Eval vm_compute in ("<<<M1335>>>" ++ check (runes_of_ascii "// top
+root // c0
+packet // c1
+Frame // c2a
+  // c2b
+{ // c3
+u8 K
     // c5
-,
-    // c6
-MetaDataX
+, Logon
     // c7
-x
-    // c8
-`a\`
-    // c9
-,
-    // c10
-int8
-    // c11
-_x
+first // c8a
+  // c8b
+, // c9a
+  // c9b
+match K as
     // c12
-,
-    // c13
-char[]
-    // c14
-As
-    // c15
-`u8 x,`
+Body // c13a
+  // c13b
+{ 1 // c15a
+  // c15b
+:
     // c16
-,
-    // c17
-zchar[
+Logon ,
     // c18
-3
+2
     // c19
-]
+:
     // c20
-uint8x
-    // c21
+Logout // c21
 ,
     // c22
-As
-    // c23
-Foo
-    // c24
-,
+} // c23
+, // c24a
+  // c24b
+}
     // c25
-}
-    // c26
-root
-    // c27
-packet
-    // c28
-repeatCount
-    // c29
-{
+packet // c26a
+  // c26b
+Logon // c27a
+  // c27b
+{ string // c29
+user
     // c30
-}
+,
     // c31
-")).
-Eval vm_compute in ("<<<M1815>>>" ++ check (runes_of_ascii "// top
-  options 
-        // c0
-
-{ 
-// c1
-  }
-// c2
-  options
-        // c3
-  { 
-// c4
-  MetaDataX
-    // c5
-  	= 
-	    // c6
-
-char 
-
-// c7
-  ;
-
-    // c8
-    } 
-        // c9
-	  MetaData 
-	    // c10
-Pad
-// c11
-    {
-	    // c12
-    i8
-// c13
-  metadata 
-    // c14
-    , 
-      // c15
-    string 
-      // c16
-stringy 
-    // c17
-	, 
-      // c18
-	  int8
-        // c19
-As
-    // c20
-  `{ , }` 
-      // c21
-	  , 
-// c22
-  }
-	    // c23
-")).
-Eval vm_compute in ("<<<M1723>>>" ++ check (runes_of_ascii "  packet 
-NewOrder{
-u32
-    qty
-,} 
-packet	Cancel
-    {
-
-u64
-
-    id , }
-packet 
-Business
-
-{
-u8
-
-Kind ,
-    match Kind	as
-
-Detail
-
-{ 1
-:
-NewOrder
-, 2
-: 
-Cancel , }
-, } 
+} // c32
 packet
-    TcpFrame
-{
-u8
-	T , match
-T
-
-as Body
-
-    { 
-1	:
-	Business
-
-    ,  } , }	packet
-
-UdpFrame
-{u8
-U ,	match
-U as Body{  1
-
-    :
-
-Business
-    ,}
-    , Business extra
-,	}
-root packet
-    Wire {
-
-TcpFrame
-
-    , UdpFrame
+    // c33
+Logout
+    // c34
+{ // c35a
+  // c35b
+u16
+    // c36
+reason // c37
 ,
+    // c38
+} ")).
+Eval vm_compute in ("<<<M1866>>>" ++ check (runes_of_ascii "packet x_y_z {
+    repeat asx {
+        falsey @lengthOf(u) `100% of %d`,
+        repeat matchKey {
+            x_y_z @calculatedFrom(""a\\""),
+            i64 calculatedFrom @calculatedFrom(""// no comment"") `{ , }`,
+        },
+        // c
+        //	t
+        char[007] Foo @calculatedFrom(""abc""),
+    },
+    repeat uint32 Pad,
+    repeat Logon {
+        Logon {
+            char[] packetx @calculatedFrom(""it's"") `
+                        `,
+        },
+        i8 len,
+        asx,
+    },
+}")).
+Eval vm_compute in ("<<<M360>>>" ++ check (runes_of_ascii "root packet
+    MetaDataX
+    { u16 Logon@lengthOf( body
+), match
+lengthOf as As {
+    // " ++ [128512]%N ++ runes_of_ascii " emoji
+    7 :As	42 :
+rootA
+    , 0123456789 : repeatCount
+    ,
+""abc"":Packet ,
+""1"": trueish ""a	b"" :
+//x
+// " ++ [128512]%N ++ runes_of_ascii " emoji
+leftPad  ,	}	, match x as A// 50% %s
+{ ""`tick`"" : trueish ,}
+, uint32 u8x`tab	here`	, tag @calculatedFrom(
+    """ ++ [28040; 24687]%N ++ runes_of_ascii """
+    ),
+repeat body//	t
+repeatCount ,
+@calculatedFrom(""x y"")  asx @calculatedFrom( // `tick` ""quote"" 'q'
+""a\""b""
+    ) , }")).
+Eval vm_compute in ("<<<M1590>>>" ++ check (runes_of_ascii "packet body {
+    @leftPad('0')
+    stringy roots,
+    @rightPad('0')
+    asx @lengthOf(_x),
+    //	t
+}
 
+packet chars {
+    @tag(255)
+    i32 msg_type,
+    o {
+        pack @calculatedFrom(""abc""),
+        match rootA as tag {
+            [0123456789, 7] : len,
+        },
+        u32 BodyLength @calculatedFrom(""packet"") `say ""hi""`,
+        lengthOf u,
+    },
+    @rightPad(' ')
+    repeat f32a,
+}
+
+MetaData msg_type {
+}")).
+Eval vm_compute in ("<<<M35>>>" ++ check (runes_of_ascii "options {  stringy =
+// packet A { u8 x, }
+// a // b
+true
+;
+    x_y_z
+=
+    false x ='\x00' //x
+;
+matchKey  =
+    i64
+; // c
+}root packet o {@lengthOf( float ) int32 As
+,
+}
+    root
+/// triple
+// trailing space 
+packet x
+{ // a // b
+@rightPad
+( ) i8i8 @calculatedFrom( ""x y"")//x
+, } MetaData
+u  { A
+    /// triple
+    u8x ,
+} options {
+    u8x = i64 _x  =""CRC32"" ; MetaDataX = u8 }
+")).
+Eval vm_compute in ("<<<M168>>>" ++ check (runes_of_ascii "MetaData o//
+{MetaDataX  As `crlf
+line` ,string_	T , zchar[
+1 ] Header , //	t
+} packet packetx { // " ++ [128512]%N ++ runes_of_ascii " emoji
+repeat //	t
+char[ 10
+// @lengthOf(
+//
+] crc
+`a\` ,  @tag( 42 ) repeat char[]asx `// not a comment` , zchar[
+// a // b
+// " ++ [128512]%N ++ runes_of_ascii " emoji
+007 ]
+len @lengthOf( u )`a\` ,@leftPad ( '\x00' ) @tag(	3 )@calculatedFrom( ""a\""b"") char[ //x
+10] As
+`
+`  , }
+")).
+Eval vm_compute in ("<<<M217>>>" ++ check (runes_of_ascii "root packet i8i8 {
+    msg_type@lengthOf( asx
+    // packet A { u8 x, }
+    )  , Logon
+{ msg_type{ repeat
+x_y_z `say ""hi""` ,
     }
-")).
-Eval vm_compute in ("<<<M300>>>" ++ check (runes_of_ascii "// c
-packet A// trailing space 
-{ i64_`100% of %d` // `tick` ""quote"" 'q'
-,@calculatedFrom( ""packet"") string
-Z9_ `{ , }` ,match BodyLength as
-    matchKey {
-7:MetaDataX ,
-} ,repeat	a1 { repeat Pad , }
-, pack  T, u64
-MetaDataX
-    ,	@calculatedFrom(	""a	b"" ) tag
-{ u32 body  ,
-pack @lengthOf( _x
-) `it's` , repeatCount ,// c
-repeat int32 BodyLength ,} , uint64 tag , } options{ //x
-} 	 ")).
-Eval vm_compute in ("<<<M293>>>" ++ check (runes_of_ascii "MetaData o { float32 Z9_`two words` ,char[0123456789 ] As , char[
-4294967296 ]
-u8x`100% of %d`	, /// triple
-}
-packet u8x { @rightPad // packet A { u8 x, }
-( ' '	) match len as packetx
+, } ,
+    Z9_ , repeatCount
+//x
+/// triple
+{char[]	asx,
+    // " ++ [128512]%N ++ runes_of_ascii " emoji
+    float32 options1,
+repeat  uint64 x	`two words`,chars
+    `` , } ,
+// 50% %s
+// 50% %s
+repeat A float , } 	 ")).
+Eval vm_compute in ("<<<M1327>>>" ++ check (runes_of_ascii "
+packet
+
+MDSnapshotZZ {
+
+u8  a	,
+
+}packet	OrderACK
+
 {
-    [ ""a	b"",//	t
-10 , 42, 007 ,  4294967296	,
-    ""packet"" , ""it's""
-]
-: x_y_z  0	:  o , },
-}MetaData calculatedFrom { char[
+
+    u16
+    b , }	packet
+    HTTPServerInfo {  string s, }
+
+    root  packet
+FIXMsg
+    { 
+u8 KType  ,  MDSnapshotZZ
+	, repeat OrderACK
+    ,  match
+
+    KType  as 
+Body
+
+    { 1 :HTTPServerInfo ,2: OrderACK ,
+}	,
+	}")).
+Eval vm_compute in ("<<<M292>>>" ++ check (runes_of_ascii "
+packet len{
     // @lengthOf(
-    3
-]
-len ,
-    }")).
-Eval vm_compute in ("<<<M1446>>>" ++ check (runes_of_ascii "
-packet
-A
-
+    } root packet stringy
+//
+/// triple
 {
-
-u8
-a,
-
-    }	packet
-B{ u16
-b
-
-    ,	}
-packet
-
-    C
-	{  u32 c
-    , }
-root
-
-packet	M {
-u16
-
-    Kc
+    // `tick` ""quote"" 'q'
+    } MetaData	stringy {char[ 0 ]	falsey `tab	here`,falsey u
+    /// triple
+    , Header crc,
+// `tick` ""quote"" 'q'
+// `tick` ""quote"" 'q'
+trueish
+zchar, //x
+}
+")).
+Eval vm_compute in ("<<<M514>>>" ++ check (runes_of_ascii "packet
+    asx { @calculatedFrom(
+""""  ) @tag( 255 )repeat
+// packet A { u8 x, }
+// trailing space 
+int16 u8x
 ,
-
-u16
-	Kb
-,  u16
-Ka
-,  match
-	Kc
-as X
-
-{
-
-9
-    :	A , 
-10:
-
-    B,
-    }  ,match
-
-Kb
-
-    as
-Y {
-
-2 : C ,  1 :A ,
-	},
-
-match
-Ka
-    as Z{	1
-:
-	B
-
-    ,} ,A 
+@tag(
+    //
+    007 )
+    @tag( 0
+    /// triple
+    ) @tag( 1) u
+    @lengthOf( T packet,
+// `tick` ""quote"" 'q'
+//x
+} // " ++ [128512]%N ++ runes_of_ascii " emoji")).
+Eval vm_compute in ("<<<M484>>>" ++ check (runes_of_ascii "packet
+    asx { @calculatedFrom(
+""""  ) @tag( 255 )repeat
+// packet A { u8 x, }
+// trailing space 
+int16 u8x
+,
+@tag(
+    //
+    007 )
+    @tag( 0
+    /// triple
+    ) uint32 1) u
+    @lengthOf( T ),
+// `tick` ""quote"" 'q'
+//x
+} // " ++ [128512]%N ++ runes_of_ascii " emoji")).
+Eval vm_compute in ("<<<M468>>>" ++ check (runes_of_ascii "packet
+    asx { @calculatedFrom(
+""""  ) @tag( 255 )repeat
+// packet A { u8 x, }
+// trailing space 
+int16 u8x
+,
+@tag(
+    //
+    007 )
+    0 @tag(
+    /// triple
+    ) @tag( 1) u
+    @lengthOf( T ),
+// `tick` ""quote"" 'q'
+//x
+} // " ++ [128512]%N ++ runes_of_ascii " emoji")).
+Eval vm_compute in ("<<<M521>>>" ++ check (runes_of_ascii "packet
+    asx { @calculatedFrom(
+""""  ) @tag( 255 )repeat
+// packet A { u8 x, }
+// trailing space 
+int16 u8x
+,
+@tag(
+    //
+    007 )
+    @tag( 0
+    /// triple
+    ) @tag( 1) u
+    @lengthOf( T ),
+// `tick` ""quote"" 'q'
+//x
+ // " ++ [128512]%N ++ runes_of_ascii " emoji")).
+Eval vm_compute in ("<<<M339>>>" ++ check (runes_of_ascii "packet len
+    {
+    @calculatedFrom( ""{,}"" )
+zchar[ 10 ] packetx`line1
+line2` , @lengthOf( metadata
+) @calculatedFrom( ""a	b""
+    ) matchKey@lengthOf( As
+    ) , chars
+// 50% %s
+// a // b
+uint8x `a\` ,  char[ 65535 ] Foo,	}")).
+Eval vm_compute in ("<<<M1680>>>" ++ check (runes_of_ascii "MetaData
+    u  { 
+}MetaData
+	o {	uint8x
+	float
+	`100% of %d`
 , 
-B
+repeatCount
+u8x ,
 
-    ,C ,	} ")).
-Eval vm_compute in ("<<<M1584>>>" ++ check (runes_of_ascii "
-// top
-	options // c0
-    {  // c1a
-		// c1b
-    LittleEndian= 	 // c3
-		true
+    string_
 
-    ;
-}// c6a
-    // c6b
-    root	// c7a
-  	// c7b
-	packet
+    leftPad
+    , i32 Foo ,  int64
+    x `two words`
 
-    // c8
-	P
+    ,
+	calculatedFrom  stringy `a\`
 
-    {  
-  // c10
-	repeat  char
-    // c12
-
-  cs , 
-      // c14
-u8
-x // c16a
-	  // c16b
-      ,
-
-    // c17
-}
+, }
 ")).
-Eval vm_compute in ("<<<M1564>>>" ++ check (runes_of_ascii "root packet int {
-    match u128 as BodyLength {
-        00 : crc,
-        //x
-        0123456789 : BodyLength,
-        [10, 4294967296, 4294967296, 7] : u128,
-        ""a	b"" : len,
-        42 : metadata,
-        0 : Foo,
-    },
-    zchar[42] x `say ""hi""`,
-}")).
-Eval vm_compute in ("<<<M419>>>" ++ check (runes_of_ascii "packet
-    asx { @calculatedFrom(
-""""  ) @lengthOf( 255 )repeat
-// packet A { u8 x, }
-// trailing space 
-int16 u8x
-,
-@tag(
-    //
-    007 )
-    @tag( 0
-    /// triple
-    ) @tag( 1) u
-    @lengthOf( T ),
-// `tick` ""quote"" 'q'
-//x
-} // " ++ [128512]%N ++ runes_of_ascii " emoji")).
-Eval vm_compute in ("<<<M522>>>" ++ check (runes_of_ascii "packet
-    asx { @calculatedFrom(
-""""  ) @tag( 255 )repeat
-// packet A { u8 x, }
-// trailing space 
-int16 u8x
-,
-@tag(
-    //
-    007 )
-    @tag( 0
-    /// triple
-    ) @tag( 1) u
-    @lengthOf( T ),
-// `tick` ""quote"" 'q'
-//x
-} } // " ++ [128512]%N ++ runes_of_ascii " emoji")).
-Eval vm_compute in ("<<<M448>>>" ++ check (runes_of_ascii "packet
-    asx { @calculatedFrom(
-""""  ) @tag( 255 )repeat
-// packet A { u8 x, }
-// trailing space 
-int16 u8x
-@tag(
-,
-    //
-    007 )
-    @tag( 0
-    /// triple
-    ) @tag( 1) u
-    @lengthOf( T ),
-// `tick` ""quote"" 'q'
-//x
-} // " ++ [128512]%N ++ runes_of_ascii " emoji")).
-Eval vm_compute in ("<<<M486>>>" ++ check (runes_of_ascii "packet
-    asx { @calculatedFrom(
-""""  ) @tag( 255 )repeat
-// packet A { u8 x, }
-// trailing space 
-int16 u8x
-,
-@tag(
-    //
-    007 )
-    @tag( 0
-    /// triple
-    ) @tag( ) u
-    @lengthOf( T ),
-// `tick` ""quote"" 'q'
-//x
-} // " ++ [128512]%N ++ runes_of_ascii " emoji")).
-Eval vm_compute in ("<<<M501>>>" ++ check (runes_of_ascii "packet
-    asx { @calculatedFrom(
-""""  ) @tag( 255 )repeat
-// packet A { u8 x, }
-// trailing space 
-int16 u8x
-,
-@tag(
-    //
-    007 )
-    @tag( 0
-    /// triple
-    ) @tag( 1) u
-     T ),
-// `tick` ""quote"" 'q'
-//x
-} // " ++ [128512]%N ++ runes_of_ascii " emoji")).
-Eval vm_compute in ("<<<M262>>>" ++ check (runes_of_ascii "root  packet int {  match u128 as BodyLength
-    { 00
-    :crc //x
-0123456789 : BodyLength [
-10
-,4294967296 ,4294967296 , 7 ] :
-u128 ""a	b""
-:len
-,42: metadata
-, 0 : Foo , }
-, zchar[ 42 ] x	`say ""hi""` // c
-,
-}
+Eval vm_compute in ("<<<M351>>>" ++ check (runes_of_ascii "options { i8i8=00 matchKey = 4294967296 msg_type = ' ' metadata
+    = 4294967296}//
+packet u8x {@tag( 4294967296 )	@leftPad( /// triple
+'0'  )
+@tag( 1
+) asx A`// not a comment`,  }
 ")).
-Eval vm_compute in ("<<<M27>>>" ++ check (runes_of_ascii "
-MetaData trueish{ string// 50% %s
-u	,
-// @lengthOf(
-//x
-pack Pad`say ""hi""`
-,// a // b
-int32 tag	, u8 asx , // 50% %s
-i32
-    len
-,int int `100% of %d`,
-} MetaData falsey { }
-// @lengthOf(
-")).
-Eval vm_compute in ("<<<M602>>>" ++ check (runes_of_ascii "MetaData u
+Eval vm_compute in ("<<<M617>>>" ++ check (runes_of_ascii "MetaData u
     { } MetaData o
 { float uint8x
-`100% of %d` ,repeatCount repeatCount u8x, string_ leftPad
+`100% of %d` ,repeatCount u8x, string_ string_ leftPad
 , i32
     Foo , int64 x `two words` , calculatedFrom
 stringy `a\` ,
 }
 ")).
-Eval vm_compute in ("<<<M632>>>" ++ check (runes_of_ascii "MetaData u
-    { } MetaData o
-{ float uint8x
-`100% of %d` ,repeatCount u8x, string_ leftPad
-, i32 i32
-    Foo , int64 x `two words` , calculatedFrom
-stringy `a\` ,
-}
-")).
-Eval vm_compute in ("<<<M693>>>" ++ check (runes_of_ascii "MetaData u
-    { } MetaData o
-{ float uint8x
-`100% of %d` ,repeatCount u8x, string_ leftPad
-, i32
-    Foo , int64 x `two words` , calculatedFrom
-stringy @x`a\` ,
-}
-")).
-Eval vm_compute in ("<<<M599>>>" ++ check (runes_of_ascii "MetaData u
-    { } MetaData o
-{ float uint8x
-`100% of %d` )repeatCount u8x, string_ leftPad
-, i32
-    Foo , int64 x `two words` , calculatedFrom
-stringy `a\` ,
-}
-")).
-Eval vm_compute in ("<<<M641>>>" ++ check (runes_of_ascii "MetaData u
-    { } MetaData o
-{ float uint8x
-`100% of %d` ,repeatCount u8x, string_ leftPad
-, i32
-    Foo  int64 x `two words` , calculatedFrom
-stringy `a\` ,
-}
-")).
-Eval vm_compute in ("<<<M586>>>" ++ check (runes_of_ascii "MetaData u
-    { } MetaData o
-{ float 
-`100% of %d` ,repeatCount u8x, string_ leftPad
-, i32
-    Foo , int64 x `two words` , calculatedFrom
-stringy `a\` ,
-}
-")).
-Eval vm_compute in ("<<<M1637>>>" ++ check (runes_of_ascii "packet A {
-    u8 a,
-}
-
-packet B {
-    u16 b,
-}
-
-root packet P {
-    u8 K,
-    match K as M {
-        [1, 2] : A,
-        3 : B,
-        7 : A,
-    },
-}")).
-Eval vm_compute in ("<<<M718>>>" ++ check (runes_of_ascii "packet
+Eval vm_compute in ("<<<M710>>>" ++ check (runes_of_ascii "packet
 crc
-{repeat  Foo A  `u8 x,` ,	@lengthOf( uint8x ) string
+{repeat  Foo `u8 x,`  A ,	@lengthOf( uint8x ) string
 matchKey @lengthOf( stringy ) `a\`
 ,
     // c
     }
 MetaData chars{
-leftPad")).
-Eval vm_compute in ("<<<M1813>>>" ++ check (runes_of_ascii "
-packet A { match
-
-k
-	as
-	n
-{
-[""a""
-	,""bb""
-    ,
-	""c c""
-
-,	""d"",
-	""e""
-
-, ""f""
-    ,""g"",""h""
-
-    ,
-""i"", ""j""  ]:
-B
-2
-
-    :
-
-C
-
-}
+leftPad
+    //	t
+    crc
+`" ++ [233]%N ++ runes_of_ascii "`
 ,}")).
-Eval vm_compute in ("<<<M1923>>>" ++ check (runes_of_ascii "  packet A
-{ 
-match k
-as n
-{ ""%d%s"":
+Eval vm_compute in ("<<<M705>>>" ++ check (runes_of_ascii "MetaData u
+    { } MetaData o
+{ float uint8x
+`100% of %d` ,repeatCount u8x, string_ leftPad
+, i32
+    Foo , int64 x `two words` , calculatedFrom
+stringy `a\` ',
+}
+")).
+Eval vm_compute in ("<<<M658>>>" ++ check (runes_of_ascii "MetaData u
+    { } MetaData o
+{ float uint8x
+`100% of %d` ,repeatCount u8x, string_ leftPad
+, i32
+    Foo , int64 x , `two words` calculatedFrom
+stringy `a\` ,
+}
+")).
+Eval vm_compute in ("<<<M631>>>" ++ check (runes_of_ascii "MetaData u
+    { } MetaData o
+{ float uint8x
+`100% of %d` ,repeatCount u8x, string_ leftPad
+, 
+    Foo , int64 x `two words` , calculatedFrom
+stringy `a\` ,
+}
+")).
+Eval vm_compute in ("<<<M1274>>>" ++ check (runes_of_ascii "
+packet	B
+    {
+
+    u8	a 
+,  } root
+
+    packet P{ u8	K,
+
+u64
+L @lengthOf(
+
+    Body
+
+    )
+
+    ,
+match
+    K  as
+	Body
+    { 1 :
+
 B
-    ,
-
-[ ""%d%s"",
-	1 
-]
-
-: C
-,
-[ 
-1,2
-
-,	3  ,4 
 ,
 
-5, 
-""%d%s""
-]:
+}  ,}
+")).
+Eval vm_compute in ("<<<M1675>>>" ++ check (runes_of_ascii "MetaData len {
+}
 
-D
+packet int {
+    repeat char[1] stringy,
+}// a // b
 
-, }
+packet MetaDataX {
+    zchar[10] leftPad @calculatedFrom(""// no comment""),
+}")).
+Eval vm_compute in ("<<<M119>>>" ++ check (runes_of_ascii "packet len { // " ++ [128512]%N ++ runes_of_ascii " emoji
+Pad,  @tag( //	t
+4294967296 ) @calculatedFrom( ""{,}""
+    ) char[
+0123456789 ] o @calculatedFrom(
+""it's"" ) ,}
+")).
+Eval vm_compute in ("<<<M1810>>>" ++ check (runes_of_ascii "options {
+    // c
+}
 
-    ,
-} ")).
-Eval vm_compute in ("<<<M936>>>" ++ check (runes_of_ascii "packet A {
+options {
+    MetaDataX = char;
+}
+
+MetaData Pad {
+    i8 metadata,
+    string stringy,
+    int8 As `{ , }`,
+}")).
+Eval vm_compute in ("<<<M1776>>>" ++ check (runes_of_ascii "
+options
+{ }options
+{ 
+_x
+
+= 
+""`tick`""
+    ; 
+matchKey =
+
+""it's"" ; options1=
+
+u16
+
+;stringy
+
+=true }
+packet
+x_y_z
+
+{
+}
+")).
+Eval vm_compute in ("<<<M1204>>>" ++ check (runes_of_ascii "options
+// c
+{ } options { MetaDataX = char ; } MetaData Pad { i8 metadata , string stringy , int8 As `{ , }` , }")).
+Eval vm_compute in ("<<<M1236>>>" ++ check (runes_of_ascii "options { } options { MetaDataX = char ; } MetaData Pad { i8 metadata , string
+// c
+stringy , int8 As `{ , }` , }")).
+Eval vm_compute in ("<<<M989>>>" ++ check (runes_of_ascii "packet A {
+    match k as n {
+        ""\
+"" : B,
+        [""\
+"", 1] : C,
+        [1,2,3,4,5,""\
+""] : D,
+    },
+}")).
+Eval vm_compute in ("<<<M942>>>" ++ check (runes_of_ascii "packet A {
     Inner {
         u8 x `a
-    b
-  c`,
+
+b`,
         Deep {
             u8 y `a
-    b
-  c`,
+
+b`,
         },
     },
 }")).
-Eval vm_compute in ("<<<M1213>>>" ++ check (runes_of_ascii "options { } options { MetaDataX // c
-= char ; } MetaData Pad { i8 metadata , string stringy , int8 As `{ , }` , }")).
-Eval vm_compute in ("<<<M1245>>>" ++ check (runes_of_ascii "options { } options { MetaDataX = char ; } MetaData Pad { i8 metadata , string stringy , int8 As `{ , }` // c
-, }")).
-Eval vm_compute in ("<<<M906>>>" ++ check (runes_of_ascii "packet A {
-  match k as n {
-    [1, ""bb"", 007, ""d"", 5, ""f"", 7, ""h"", 9, ""j"", 11, ""l""] : B,
-    2 : C
-  },
-}")).
-Eval vm_compute in ("<<<M911>>>" ++ check (runes_of_ascii "packet A {
-  match k as n {
-    [1, 22, ""c c"", 4, 5, ""f"", 7, 8, ""i"", 10, 11, ""l""] : B
-    2 : C
-  },
-}")).
-Eval vm_compute in ("<<<M1680>>>" ++ check (runes_of_ascii "MetaData o {
-    i8 lengthOf `two words`,
-    msg_type MetaDataX ``,/// triple
-    u32 int `a\`,
-}")).
-Eval vm_compute in ("<<<M1831>>>" ++ check (runes_of_ascii "  packet
-A
-
-{
-
-    B b `a
-    b
-  c` 
-,
-	B  `a
-    b
-  c` 
-,repeat 
-B bs	`a
-    b
-  c`
-, }
+Eval vm_compute in ("<<<M110>>>" ++ check (runes_of_ascii "options
+    {Foo= 00  ; Header =false calculatedFrom
+    = true; }	root  packet
+int //x
+{ len , }
 ")).
-Eval vm_compute in ("<<<M847>>>" ++ check (runes_of_ascii "packet A {
+Eval vm_compute in ("<<<M870>>>" ++ check (runes_of_ascii "packet A {
   match k as n {
-    [""a"", ""bb"", 007, ""d"", ""e"", 66, ""g""] : B,
+    [""a"", 22, ""c c"", 4, ""e"", 66, ""g"", 8, ""i""] : B
     2 : C
   },
+}")).
+Eval vm_compute in ("<<<M1660>>>" ++ check (runes_of_ascii "packet A {
+    B b `a
+        b`,
+    B `a
+        b`,
+    repeat B bs `a
+        b`,
 }")).
 Eval vm_compute in ("<<<M863>>>" ++ check (runes_of_ascii "packet A {
   match k as n {
@@ -1056,95 +1058,87 @@ Eval vm_compute in ("<<<M863>>>" ++ check (runes_of_ascii "packet A {
     2 : C
   },
 }")).
-Eval vm_compute in ("<<<M1811>>>" ++ check (runes_of_ascii "packet
-
-    A
-
-{ Inner{ 
-u8
-
-    x
-	`
-`,
-Deep { u8
-y
-	`
-`
-    ,
-	} ,
-}
-	,} ")).
-Eval vm_compute in ("<<<M818>>>" ++ check (runes_of_ascii "packet A {
+Eval vm_compute in ("<<<M850>>>" ++ check (runes_of_ascii "packet A {
   match k as n {
-    [""a"", 22, ""c c"", 4, ""e""] : B
+    [1, 22, 007, 4, 5, 66, 7, 8] : B,
     2 : C
   },
 }")).
-Eval vm_compute in ("<<<M802>>>" ++ check (runes_of_ascii "packet A {
+Eval vm_compute in ("<<<M838>>>" ++ check (runes_of_ascii "packet A {
   match k as n {
-    [1, ""bb"", 007, ""d""] : B,
+    [1, 22, 007, 4, 5, 66, 7] : B
     2 : C
   },
 }")).
-Eval vm_compute in ("<<<M1770>>>" ++ check (runes_of_ascii "root packet Packet {
-    match f32a as Foo {
-        1 : tag,
+Eval vm_compute in ("<<<M1456>>>" ++ check (runes_of_ascii "packet A {
+    match k as n {
+        [1, 22] : B,
+        2 : C,
     },
 }")).
+Eval vm_compute in ("<<<M875>>>" ++ check (runes_of_ascii "packet A { Inner { match k as n { [1,22,007,4,5,66,7,8,9] : B, }, }, }")).
 Eval vm_compute in ("<<<M778>>>" ++ check (runes_of_ascii "packet A {
   match k as n {
     [""a"", ""bb""] : B,
     2 : C
   },
 }")).
-Eval vm_compute in ("<<<M952>>>" ++ check (runes_of_ascii "packet A {
-    B b `
-x`,
-    B `
-x`,
-    repeat B bs `
-x`,
+Eval vm_compute in ("<<<M946>>>" ++ check (runes_of_ascii "packet A {
+    B b `x
+`,
+    B `x
+`,
+    repeat B bs `x
+`,
 }")).
-Eval vm_compute in ("<<<M1695>>>" ++ check (runes_of_ascii "root packet A {
-    u8 x `a
-            b
-          c`,
-}")).
-Eval vm_compute in ("<<<M1098>>>" ++ check (runes_of_ascii "packet A { u8 x, } // a
-// b
-packet B {} // c
-// d")).
-Eval vm_compute in ("<<<M1483>>>" ++ check (runes_of_ascii "  MetaData  rootA
+Eval vm_compute in ("<<<M1642>>>" ++ check (runes_of_ascii "
+MetaData
+	M 
+{
+u8	x  `x
+`
+    ,
+T	t
 
-    {options1
-a1 ,
+`x
+`
+
+    ,
 	}
-
 ")).
-Eval vm_compute in ("<<<M1745>>>" ++ check (runes_of_ascii "root packet A {
-    u8 x `
-        x`,
+Eval vm_compute in ("<<<M1719>>>" ++ check (runes_of_ascii "root packet A {
+    u8 x `a
+        b
+      c`,
 }")).
-Eval vm_compute in ("<<<M1181>>>" ++ check (runes_of_ascii "// c
-options { A = ""// no comment"" }")).
+Eval vm_compute in ("<<<M955>>>" ++ check (runes_of_ascii "MetaData M {
+    u8 x `
+x`,
+    T t `
+x`,
+}")).
+Eval vm_compute in ("<<<M743>>>" ++ check ([65533; 65533]%N ++ runes_of_ascii "%" ++ [65533; 65533; 23]%N ++ runes_of_ascii "C" ++ [65533]%N ++ runes_of_ascii "c$/" ++ [65533; 18]%N ++ runes_of_ascii "o" ++ [65533; 65533]%N ++ runes_of_ascii "A" ++ [14; 65533]%N ++ runes_of_ascii "Z" ++ [65533; 25; 65533]%N ++ runes_of_ascii "x" ++ [65533]%N ++ runes_of_ascii "I?w" ++ [65533; 65533; 65533]%N ++ runes_of_ascii """&" ++ [924]%N ++ runes_of_ascii "R" ++ [65533; 20; 65533]%N)).
+Eval vm_compute in ("<<<M1187>>>" ++ check (runes_of_ascii "options { A // c
+= ""// no comment"" }")).
 Eval vm_compute in ("<<<M410>>>" ++ check (runes_of_ascii "packet
     asx { @calculatedFrom(")).
-Eval vm_compute in ("<<<M1002>>>" ++ check (runes_of_ascii "packet A {
- u8 x `d" ++ [12288]%N ++ runes_of_ascii "`, // c" ++ [12288]%N ++ runes_of_ascii "
+Eval vm_compute in ("<<<M1406>>>" ++ check (runes_of_ascii "root packet P {
+    string s,
 }")).
-Eval vm_compute in ("<<<M1743>>>" ++ check (runes_of_ascii "packet calculatedFrom
-	{
-	} ")).
-Eval vm_compute in ("<<<M1152>>>" ++ check (runes_of_ascii "root packet a1 { }
-// c
+Eval vm_compute in ("<<<M257>>>" ++ check (runes_of_ascii "packet calculatedFrom
+{} 	 ")).
+Eval vm_compute in ("<<<M331>>>" ++ check (runes_of_ascii "
+ // `tick` ""quote"" 'q'")).
+Eval vm_compute in ("<<<M66>>>" ++ check (runes_of_ascii "MetaData metadata { }")).
+Eval vm_compute in ("<<<M1015>>>" ++ check (runes_of_ascii "packet A {
+}
+// c" ++ [5760]%N)).
+Eval vm_compute in ("<<<M1898>>>" ++ check (runes_of_ascii "packet string_ {
+}")).
+Eval vm_compute in ("<<<M405>>>" ++ check (runes_of_ascii "packet
+    asx {")).
+Eval vm_compute in ("<<<M1751>>>" ++ check (runes_of_ascii "
+// c" ++ [160]%N ++ runes_of_ascii "
 ")).
-Eval vm_compute in ("<<<M1124>>>" ++ check (runes_of_ascii "MetaData // c
-tag { }")).
-Eval vm_compute in ("<<<M1016>>>" ++ check (runes_of_ascii "// c" ++ [5760]%N ++ runes_of_ascii "
-packet A {
-}")).
-Eval vm_compute in ("<<<M727>>>" ++ check (runes_of_ascii "// only a comment")).
-Eval vm_compute in ("<<<M565>>>" ++ check (runes_of_ascii "MetaData u
-    {")).
-Eval vm_compute in ("<<<M1059>>>" ++ check (runes_of_ascii "// c 	")).
-Eval vm_compute in ("<<<M723>>>" ++ check (runes_of_ascii " ")).
+Eval vm_compute in ("<<<M17>>>" ++ check (runes_of_ascii "
+")).
